@@ -16,6 +16,7 @@ func init() {
 	register(&Prop{ID: "C05", Run: runC05,
 		Technique: "static analysis: dominance guards + must-pass-through on go/ssa, enum typestate on the node status, constant/value-flow of signals and contexts, sibling agreement of process executors",
 		Decided: []string{
+			"a step's signalOnStop is stored only when the resolver the stop path uses (unix.SignalNum) accepts that very text (C05.signal-name-valid, shared with C13.validity)",
 			"no launch and no (re-)execution after cancel: launch and the worker's exec call are dominated per iteration by !isCanceled() (C05.no-launch-after-cancel)",
 			"Signal sets the canceled flag before fanning out, visits every node, and skips only repeating steps (C05.signal-fanout)",
 			"Node.signal forwards the signal only under status==running ∧ cmd!=nil and uses signalOnStop only under allowOverride ∧ configured (C05.signal-table)",
@@ -49,6 +50,12 @@ func runC05(e *Env) {
 	c05Pgroup(e, s)
 	c05TimeoutCtx(e, s)
 	c04Handlers(e, s)
+	// the stop path resolves the step's signalOnStop with unix.SignalNum: a name the
+	// loader accepted but that resolver maps to 0 is "delivered" as signal 0 - not at all
+	r.Rule("C05.signal-name-valid", "DCS", "a step's signalOnStop is stored only when the stop path's resolver accepts that very text", 1)
+	if cSignalNameValid(e, func(*ssa.Function) bool { return true }) == 0 {
+		r.Unknown("stores of Step.SignalOnStop", "-", "no computed store of Step.SignalOnStop found (loader not recognised)")
+	}
 }
 
 // isCanceledCall: a call of the predicate that reads the scheduler's cancel
@@ -615,7 +622,19 @@ func c05AgentEscalation(e *Env, s *Sched) {
 	for _, f := range parts {
 		isPart[f] = true
 	}
+	// a forwarder: a one-block function of the package calling Scheduler.Signal; when
+	// the routine calls it (plainly or with `go`) each call is a send of its own and
+	// the forwarder's body is not judged by itself
+	isForwarder := func(h *ssa.Function) bool {
+		if h == nil || h == fn || !e.P.Funcs[h] || !ar.inPkg(h) || len(h.Blocks) != 1 || h.Parent() != nil {
+			return false
+		}
+		return len(ir.CallsIn(h, func(c *ssa.CallCommon) bool { return c.StaticCallee() == schedSignal })) > 0
+	}
 	for _, f := range parts {
+		if isForwarder(f) {
+			continue
+		}
 		for _, ci := range ir.CallsIn(f, func(c *ssa.CallCommon) bool { return c.StaticCallee() != nil }) {
 			h := ci.Common().StaticCallee()
 			if h == schedSignal {
@@ -624,7 +643,7 @@ func c05AgentEscalation(e *Env, s *Sched) {
 				}
 				continue
 			}
-			if isPart[h] || !e.P.Funcs[h] || !ar.inPkg(h) || len(h.Blocks) != 1 {
+			if !isForwarder(h) {
 				continue
 			}
 			for _, inner := range ir.CallsIn(h, func(c *ssa.CallCommon) bool { return c.StaticCallee() == schedSignal }) {
